@@ -60,10 +60,12 @@ func (c *scriptConn) ReadFrom(b []byte) (int, net.Addr, error) {
 }
 func (c *scriptConn) WriteTo([]byte, net.Addr) (int, error) { return 0, errors.New("not supported") }
 func (c *scriptConn) Close() error                          { c.once.Do(func() { close(c.closed) }); return nil }
-func (c *scriptConn) LocalAddr() net.Addr                   { return &net.UDPAddr{IP: net.IPv4(127, 0, 0, 1), Port: 8125} }
-func (c *scriptConn) SetDeadline(time.Time) error           { return nil }
-func (c *scriptConn) SetReadDeadline(time.Time) error       { return nil }
-func (c *scriptConn) SetWriteDeadline(time.Time) error      { return nil }
+func (c *scriptConn) LocalAddr() net.Addr {
+	return &net.UDPAddr{IP: net.IPv4(127, 0, 0, 1), Port: 8125}
+}
+func (c *scriptConn) SetDeadline(time.Time) error      { return nil }
+func (c *scriptConn) SetReadDeadline(time.Time) error  { return nil }
+func (c *scriptConn) SetWriteDeadline(time.Time) error { return nil }
 func (c *scriptConn) push(ip string, msg string) bool {
 	select {
 	case c.ch <- scriptPkt{msg: []byte(msg), addr: &net.UDPAddr{IP: net.ParseIP(ip), Port: 40000}}:
